@@ -82,6 +82,8 @@ class Env(object):
         self.prog.add_command(lib["EEMSRead"], "URead", {"InFileName": os.path.join(self.tmp, "nope.csv"), "InFieldName": "a"})
         self.prog.add_command(lib["CvtToFuzzy"], "UFz", {"InFieldName": "URead"})
         self.prog.add_command(lib["PrintVars"], "UPrint", {"InFieldNames": ["URead"]})
+        for k, c in enumerate(self.prog.commands.values()):
+            c.lineno = 20 + k  # as if loaded from a file: every command has a line of its own, none of them 7
         self.meta = {
             "PData": {"finished": True, "fuzzy": False, "result": "array", "out": None},
             "PFuzzy": {"finished": True, "fuzzy": True, "result": "array", "out": None},
@@ -451,6 +453,9 @@ def _check(case, rec, env):
         return [Failure("%s|raises:%s" % (sig, type(v1).__name__), repr(v1)[:300])]
     if k1 == "error" and type(v1).__name__ not in PARAM_ERRORS:
         fails.append(Failure("%s|error_class:%s" % (sig, type(v1).__name__), sstr(v1)[:200]))
+    if k1 == "error" and getattr(v1, "lineno", None) not in (None, 7):
+        # clean() was told the line of the argument it is cleaning (7): an error it raises is about that argument
+        fails.append(Failure("%s|error_line:%s" % (sig, type(v1).__name__), "clean(..., lineno=7) raised an error carrying line %r" % (v1.lineno,)))
     if k1 == "error":
         try:
             str(v1)
